@@ -37,6 +37,7 @@ func c09(r *core.Run) {
 	r.Rule("S2", "type x list: resource patterns are combined with {get,call,auth}, access patterns with access; the method wildcard is appended only where the last byte is not '>'", 3)
 	r.Rule("S3", "subscription shape: every subscription passes the in-channel; the queue variant is used iff the queue group is non-empty with that group; each subscription loop skips patterns covered by another pattern", 6)
 	r.Rule("S4", "errors: a failed subscription returns its error from subscribe, and serve tests subscribe's result", 3)
+	r.Rule("S10", "one set of subscriptions per run: the subscribing function is called only from serve's start-up sequence (never from the reconnect handler or any other entry point): the client library restores subscriptions after a reconnect itself, a second call duplicates every subscription", 1)
 	r.Rule("S5", "ownership predicate: the handler kinds read by the default-ownership predicates are exactly the kinds the dispatcher serves (resources: Get, Call, Auth, New; access: Access)", 2)
 	r.Rule("S8", "kind detection is exhaustive: in the trie traversal behind Mux.Contains the predicate's result is only ever branched on - a false answer for one node never ends the traversal (it is never returned or merged into the result), so a handler kind registered anywhere in the trie is found", 1)
 	r.Rule("S6", "possibly-empty path: the service path is used in a subject or pattern only through mergePattern or under a non-empty test", 5)
@@ -507,6 +508,14 @@ func c09(r *core.Run) {
 		r.Check(errRet, "S4", core.FuncName(sub), fmt.Sprintf("%s:%s#%d:error-returned", which, c.Common().Method.Name(), i), p.InstrPos(c), "a failed subscription aborts subscribe with its error", "a subscription error is dropped")
 	}
 	c09ErrorsTested(r, "S4", sub)
+	// S10: one set of subscriptions per run
+	if sa := resolveSvc(r, "S10"); sa.Serve != nil {
+		for _, sc := range callsTo(root, sub) {
+			caller := sc.Parent()
+			inServe := caller == sa.Serve || (caller.Parent() == nil && p.Within(caller, sa.Serve))
+			r.Check(inServe && !core.IsGo(sc), "S10", core.FuncName(caller), "subscribes-only-at-start-up", p.InstrPos(sc), "the subscribing function is called from serve's start-up sequence", "the subscribing function is called outside serve's start-up sequence: the NATS client re-establishes every subscription on reconnect by itself, so subscribing again leaves each subject subscribed twice (more with every reconnect) - redundant subscriptions, and without a queue group every request is delivered and answered once per copy")
+		}
+	}
 	for _, sc := range callsTo(root, sub) {
 		serve := sc.Parent()
 		tested := false
